@@ -1,13 +1,13 @@
 (* Nibbles as an enumerated type, with the bitwise operations, addition and shifts given as tables.
-   GENERATED (tools-free: the tables below are plain case analyses); used by the fast SHA-2 and AES
+   the tables below are plain case analyses; used by the fast SHA-2 and AES
    so that the extracted code does a constant number of steps per 4 bits and allocates almost
    nothing (constant constructors are immediate values in OCaml). Values: X0 = 0 ... XF = 15. *)
 From QV Require Import Base.Bytes.
 Local Open Scope N_scope.
 
-Inductive hex := X0 | X1 | X2 | X3 | X4 | X5 | X6 | X7 | X8 | X9 | XA | XB | XC | XD | XE | XF.
+Inductive nibble := X0 | X1 | X2 | X3 | X4 | X5 | X6 | X7 | X8 | X9 | XA | XB | XC | XD | XE | XF.
 
-Definition hex_xor (a b : hex) : hex :=
+Definition hex_xor (a b : nibble) : nibble :=
   match a, b with
   | X0, X0 => X0 | X0, X1 => X1 | X0, X2 => X2 | X0, X3 => X3 | X0, X4 => X4 | X0, X5 => X5 | X0, X6 => X6 | X0, X7 => X7 | X0, X8 => X8 | X0, X9 => X9 | X0, XA => XA | X0, XB => XB | X0, XC => XC | X0, XD => XD | X0, XE => XE | X0, XF => XF
   | X1, X0 => X1 | X1, X1 => X0 | X1, X2 => X3 | X1, X3 => X2 | X1, X4 => X5 | X1, X5 => X4 | X1, X6 => X7 | X1, X7 => X6 | X1, X8 => X9 | X1, X9 => X8 | X1, XA => XB | X1, XB => XA | X1, XC => XD | X1, XD => XC | X1, XE => XF | X1, XF => XE
@@ -27,7 +27,7 @@ Definition hex_xor (a b : hex) : hex :=
   | XF, X0 => XF | XF, X1 => XE | XF, X2 => XD | XF, X3 => XC | XF, X4 => XB | XF, X5 => XA | XF, X6 => X9 | XF, X7 => X8 | XF, X8 => X7 | XF, X9 => X6 | XF, XA => X5 | XF, XB => X4 | XF, XC => X3 | XF, XD => X2 | XF, XE => X1 | XF, XF => X0
   end.
 
-Definition hex_and (a b : hex) : hex :=
+Definition hex_and (a b : nibble) : nibble :=
   match a, b with
   | X0, X0 => X0 | X0, X1 => X0 | X0, X2 => X0 | X0, X3 => X0 | X0, X4 => X0 | X0, X5 => X0 | X0, X6 => X0 | X0, X7 => X0 | X0, X8 => X0 | X0, X9 => X0 | X0, XA => X0 | X0, XB => X0 | X0, XC => X0 | X0, XD => X0 | X0, XE => X0 | X0, XF => X0
   | X1, X0 => X0 | X1, X1 => X1 | X1, X2 => X0 | X1, X3 => X1 | X1, X4 => X0 | X1, X5 => X1 | X1, X6 => X0 | X1, X7 => X1 | X1, X8 => X0 | X1, X9 => X1 | X1, XA => X0 | X1, XB => X1 | X1, XC => X0 | X1, XD => X1 | X1, XE => X0 | X1, XF => X1
@@ -47,12 +47,12 @@ Definition hex_and (a b : hex) : hex :=
   | XF, X0 => X0 | XF, X1 => X1 | XF, X2 => X2 | XF, X3 => X3 | XF, X4 => X4 | XF, X5 => X5 | XF, X6 => X6 | XF, X7 => X7 | XF, X8 => X8 | XF, X9 => X9 | XF, XA => XA | XF, XB => XB | XF, XC => XC | XF, XD => XD | XF, XE => XE | XF, XF => XF
   end.
 
-Definition hex_not (a : hex) : hex :=
+Definition hex_not (a : nibble) : nibble :=
   match a with
   | X0 => XF | X1 => XE | X2 => XD | X3 => XC | X4 => XB | X5 => XA | X6 => X9 | X7 => X8 | X8 => X7 | X9 => X6 | XA => X5 | XB => X4 | XC => X3 | XD => X2 | XE => X1 | XF => X0
   end.
 
-Definition hex_add (a b : hex) : hex :=
+Definition hex_add (a b : nibble) : nibble :=
   match a, b with
   | X0, X0 => X0 | X0, X1 => X1 | X0, X2 => X2 | X0, X3 => X3 | X0, X4 => X4 | X0, X5 => X5 | X0, X6 => X6 | X0, X7 => X7 | X0, X8 => X8 | X0, X9 => X9 | X0, XA => XA | X0, XB => XB | X0, XC => XC | X0, XD => XD | X0, XE => XE | X0, XF => XF
   | X1, X0 => X1 | X1, X1 => X2 | X1, X2 => X3 | X1, X3 => X4 | X1, X4 => X5 | X1, X5 => X6 | X1, X6 => X7 | X1, X7 => X8 | X1, X8 => X9 | X1, X9 => XA | X1, XA => XB | X1, XB => XC | X1, XC => XD | X1, XD => XE | X1, XE => XF | X1, XF => X0
@@ -72,7 +72,7 @@ Definition hex_add (a b : hex) : hex :=
   | XF, X0 => XF | XF, X1 => X0 | XF, X2 => X1 | XF, X3 => X2 | XF, X4 => X3 | XF, X5 => X4 | XF, X6 => X5 | XF, X7 => X6 | XF, X8 => X7 | XF, X9 => X8 | XF, XA => X9 | XF, XB => XA | XF, XC => XB | XF, XD => XC | XF, XE => XD | XF, XF => XE
   end.
 
-Definition hex_addc (a b : hex) : bool :=
+Definition hex_addc (a b : nibble) : bool :=
   match a, b with
   | X0, X0 => false | X0, X1 => false | X0, X2 => false | X0, X3 => false | X0, X4 => false | X0, X5 => false | X0, X6 => false | X0, X7 => false | X0, X8 => false | X0, X9 => false | X0, XA => false | X0, XB => false | X0, XC => false | X0, XD => false | X0, XE => false | X0, XF => false
   | X1, X0 => false | X1, X1 => false | X1, X2 => false | X1, X3 => false | X1, X4 => false | X1, X5 => false | X1, X6 => false | X1, X7 => false | X1, X8 => false | X1, X9 => false | X1, XA => false | X1, XB => false | X1, XC => false | X1, XD => false | X1, XE => false | X1, XF => true
@@ -92,17 +92,17 @@ Definition hex_addc (a b : hex) : bool :=
   | XF, X0 => false | XF, X1 => true | XF, X2 => true | XF, X3 => true | XF, X4 => true | XF, X5 => true | XF, X6 => true | XF, X7 => true | XF, X8 => true | XF, X9 => true | XF, XA => true | XF, XB => true | XF, XC => true | XF, XD => true | XF, XE => true | XF, XF => true
   end.
 
-Definition hex_inc (a : hex) : hex :=
+Definition hex_inc (a : nibble) : nibble :=
   match a with
   | X0 => X1 | X1 => X2 | X2 => X3 | X3 => X4 | X4 => X5 | X5 => X6 | X6 => X7 | X7 => X8 | X8 => X9 | X9 => XA | XA => XB | XB => XC | XC => XD | XD => XE | XE => XF | XF => X0
   end.
 
-Definition hex_is_f (a : hex) : bool :=
+Definition hex_is_f (a : nibble) : bool :=
   match a with
   | X0 => false | X1 => false | X2 => false | X3 => false | X4 => false | X5 => false | X6 => false | X7 => false | X8 => false | X9 => false | XA => false | XB => false | XC => false | XD => false | XE => false | XF => true
   end.
 
-Definition hex_shr1 (lo hi : hex) : hex :=
+Definition hex_shr1 (lo hi : nibble) : nibble :=
   match lo, hi with
   | X0, X0 => X0 | X0, X1 => X8 | X0, X2 => X0 | X0, X3 => X8 | X0, X4 => X0 | X0, X5 => X8 | X0, X6 => X0 | X0, X7 => X8 | X0, X8 => X0 | X0, X9 => X8 | X0, XA => X0 | X0, XB => X8 | X0, XC => X0 | X0, XD => X8 | X0, XE => X0 | X0, XF => X8
   | X1, X0 => X0 | X1, X1 => X8 | X1, X2 => X0 | X1, X3 => X8 | X1, X4 => X0 | X1, X5 => X8 | X1, X6 => X0 | X1, X7 => X8 | X1, X8 => X0 | X1, X9 => X8 | X1, XA => X0 | X1, XB => X8 | X1, XC => X0 | X1, XD => X8 | X1, XE => X0 | X1, XF => X8
@@ -122,7 +122,7 @@ Definition hex_shr1 (lo hi : hex) : hex :=
   | XF, X0 => X7 | XF, X1 => XF | XF, X2 => X7 | XF, X3 => XF | XF, X4 => X7 | XF, X5 => XF | XF, X6 => X7 | XF, X7 => XF | XF, X8 => X7 | XF, X9 => XF | XF, XA => X7 | XF, XB => XF | XF, XC => X7 | XF, XD => XF | XF, XE => X7 | XF, XF => XF
   end.
 
-Definition hex_shr2 (lo hi : hex) : hex :=
+Definition hex_shr2 (lo hi : nibble) : nibble :=
   match lo, hi with
   | X0, X0 => X0 | X0, X1 => X4 | X0, X2 => X8 | X0, X3 => XC | X0, X4 => X0 | X0, X5 => X4 | X0, X6 => X8 | X0, X7 => XC | X0, X8 => X0 | X0, X9 => X4 | X0, XA => X8 | X0, XB => XC | X0, XC => X0 | X0, XD => X4 | X0, XE => X8 | X0, XF => XC
   | X1, X0 => X0 | X1, X1 => X4 | X1, X2 => X8 | X1, X3 => XC | X1, X4 => X0 | X1, X5 => X4 | X1, X6 => X8 | X1, X7 => XC | X1, X8 => X0 | X1, X9 => X4 | X1, XA => X8 | X1, XB => XC | X1, XC => X0 | X1, XD => X4 | X1, XE => X8 | X1, XF => XC
@@ -142,7 +142,7 @@ Definition hex_shr2 (lo hi : hex) : hex :=
   | XF, X0 => X3 | XF, X1 => X7 | XF, X2 => XB | XF, X3 => XF | XF, X4 => X3 | XF, X5 => X7 | XF, X6 => XB | XF, X7 => XF | XF, X8 => X3 | XF, X9 => X7 | XF, XA => XB | XF, XB => XF | XF, XC => X3 | XF, XD => X7 | XF, XE => XB | XF, XF => XF
   end.
 
-Definition hex_shr3 (lo hi : hex) : hex :=
+Definition hex_shr3 (lo hi : nibble) : nibble :=
   match lo, hi with
   | X0, X0 => X0 | X0, X1 => X2 | X0, X2 => X4 | X0, X3 => X6 | X0, X4 => X8 | X0, X5 => XA | X0, X6 => XC | X0, X7 => XE | X0, X8 => X0 | X0, X9 => X2 | X0, XA => X4 | X0, XB => X6 | X0, XC => X8 | X0, XD => XA | X0, XE => XC | X0, XF => XE
   | X1, X0 => X0 | X1, X1 => X2 | X1, X2 => X4 | X1, X3 => X6 | X1, X4 => X8 | X1, X5 => XA | X1, X6 => XC | X1, X7 => XE | X1, X8 => X0 | X1, X9 => X2 | X1, XA => X4 | X1, XB => X6 | X1, XC => X8 | X1, XD => XA | X1, XE => XC | X1, XF => XE
@@ -162,20 +162,20 @@ Definition hex_shr3 (lo hi : hex) : hex :=
   | XF, X0 => X1 | XF, X1 => X3 | XF, X2 => X5 | XF, X3 => X7 | XF, X4 => X9 | XF, X5 => XB | XF, X6 => XD | XF, X7 => XF | XF, X8 => X1 | XF, X9 => X3 | XF, XA => X5 | XF, XB => X7 | XF, XC => X9 | XF, XD => XB | XF, XE => XD | XF, XF => XF
   end.
 
-Definition N_of_hex (a : hex) : N :=
+Definition N_of_hex (a : nibble) : N :=
   match a with
   | X0 => 0 | X1 => 1 | X2 => 2 | X3 => 3 | X4 => 4 | X5 => 5 | X6 => 6 | X7 => 7 | X8 => 8 | X9 => 9 | XA => 10 | XB => 11 | XC => 12 | XD => 13 | XE => 14 | XF => 15
   end.
 
 
-Definition hex_of_N (n : N) : hex :=
+Definition hex_of_N (n : N) : nibble :=
   match n with
   | 0 => X0 | 1 => X1 | 2 => X2 | 3 => X3 | 4 => X4 | 5 => X5 | 6 => X6 | 7 => X7
   | 8 => X8 | 9 => X9 | 10 => XA | 11 => XB | 12 => XC | 13 => XD | 14 => XE | _ => XF
   end.
 
 (* a byte as two nibbles: (high, low) *)
-Definition hb := (hex * hex)%type.
+Definition hb := (nibble * nibble)%type.
 
 Definition N_of_hb (x : hb) : N :=
   match x with
@@ -206,7 +206,7 @@ Definition bit_of_pos_tail (p : option positive) : bool * option positive :=
   | Some (xO q) => (false, Some q)
   | Some (xI q) => (true, Some q)
   end.
-Definition hex_of_bits (b0 b1 b2 b3 : bool) : hex :=
+Definition hex_of_bits (b0 b1 b2 b3 : bool) : nibble :=
   match b3, b2, b1, b0 with
   | false, false, false, false => X0 | false, false, false, true => X1
   | false, false, true, false => X2 | false, false, true, true => X3
